@@ -259,3 +259,100 @@ def h_fused_real(c):
     i, m = jax.jit(g)(x, where)
     return {"argmax": arr_wire(np.asarray(i)), "max": arr_wire(np.asarray(m, dtype=float)),
             "a": arr_wire(np.asarray(prod(x), dtype=float))}
+
+
+# ---- C19 ---------------------------------------------------------------------------
+def _make_func(sig):
+    """sig: [[name, kind]], kinds po (positional-only) / pk / ko; returns dict name -> value"""
+    po = [n for n, k in sig if k == "po"]
+    pk = [n for n, k in sig if k == "pk"]
+    ko = [n for n, k in sig if k == "ko"]
+    parts = list(po)
+    if po:
+        parts.append("/")
+    parts += pk
+    if ko:
+        parts.append("*")
+        parts += ko
+    body = "{" + ", ".join(f"'{n}': {n}" for n, _ in sig) + "}"
+    ns = {}
+    exec(f"def f({', '.join(parts)}):\n    return {body}\n", ns)  # noqa: S102
+    return ns["f"]
+
+
+def h_wrapper(c):
+    from lcm import functools as lf
+    f = _make_func(c["sig"])
+    w = c["wrapper"]
+    g = {"allow_only_kwargs": lf.allow_only_kwargs, "allow_args": lf.allow_args, "direct": lambda x: x}[w](f)
+    try:
+        out = g(*c["args"], **dict((k, v) for k, v in c["kwargs"]))
+    except ValueError:
+        return {"err": "ValueError"}
+    except TypeError:
+        return {"err": "TypeError"}
+    return {"ok": [[n, out[n]] for n, _ in c["sig"]]}
+
+
+def _make_poly(sig, coeffs):
+    po = [n for n, k in sig if k == "po"]
+    pk = [n for n, k in sig if k == "pk"]
+    ko = [n for n, k in sig if k == "ko"]
+    parts = list(po)
+    if po:
+        parts.append("/")
+    parts += pk
+    if ko:
+        parts.append("*")
+        parts += ko
+    names = [n for n, _ in sig]
+    c = [fq(x) for x in coeffs]
+    lin = " + ".join(f"({c[j + 1]!r}) * {n}" for j, n in enumerate(names))
+    prod = " * ".join(names)
+    ns = {}
+    exec(f"def f({', '.join(parts)}):\n    return ({c[0]!r}) + {lin} + ({c[-1]!r}) * {prod}\n", ns)  # noqa: S102
+    return ns["f"]
+
+
+def h_dispatch(c):
+    from lcm import dispatchers as d
+    f = _make_poly(c["sig"], c["coeffs"])
+    kw = {k: jnp.asarray(wire_arr(v)) for k, v in c["kwargs"]}
+    try:
+        if c["which"] == "productmap":
+            g = d.productmap(f, c["variables"])
+        elif c["which"] == "vmap_1d":
+            g = d.vmap_1d(f, c["variables"])
+        else:
+            g = d.spacemap(f, c["variables"], c["sparse"], put_dense_first=c["put_dense_first"])
+    except ValueError:
+        return {"err": "ValueError"}
+    if c.get("jit"):
+        g = jax.jit(g)
+    out = g(**kw)
+    return arr_wire(np.asarray(out))
+
+
+def h_dispatch_pytree(c):
+    """pytree output: {'u': poly, 'v': (poly2, vector-valued)}; compared with nested loops by the harness"""
+    from lcm import dispatchers as d
+    f = _make_poly(c["sig"], c["coeffs"])
+    f2 = _make_poly(c["sig"], c["coeffs2"])
+    names = [n for n, _ in c["sig"]]
+
+    def tree(*args, **kwargs):
+        a = f(*args, **kwargs)
+        b = f2(*args, **kwargs)
+        return {"u": a, "v": (b, jnp.stack([a, b, a - b]))}
+    import inspect
+    tree.__signature__ = inspect.signature(f)
+    kw = {k: jnp.asarray(wire_arr(v)) for k, v in c["kwargs"]}
+    if c["which"] == "productmap":
+        g = d.productmap(tree, c["variables"])
+    elif c["which"] == "vmap_1d":
+        g = d.vmap_1d(tree, c["variables"])
+    else:
+        g = d.spacemap(tree, c["variables"], c["sparse"], put_dense_first=c["put_dense_first"])
+    out = g(**kw)
+    return {"u": arr_wire(np.asarray(out["u"])), "v0": arr_wire(np.asarray(out["v"][0])),
+            "v1": arr_wire(np.asarray(out["v"][1]))}
